@@ -109,9 +109,9 @@ var excC07 = map[string]excEntry{
 	// (patterns: the accessors may index through one phi or once per branch; the index is the hash index of a sub-mask or 0)
 	`re:^\(\*boc\.immutableCell\)\.(Hash|Depth) P2 index \*\w+\.(hashes|depths)\[(φ|0|boc\.levelMask\.HashIndex\(\))\]`: {"newImmutableCell appends one hash and one depth per significant level >= offset; the index is HashIndex of a sub-mask of the cell's own mask (pruned cells use index 0 for their own level)", nil},
 	`re:^\(\*boc\.immutableCell\)\.(Hash|Depth) P2 slice \*\w+\.bitsBuf\[`:                                              {"index < offset = popcount(mask); newImmutableCell rejects a pruned branch whose data is shorter than 2+34*offset bytes (the offsets themselves are decided by E7.pruned-accessors)", []guardRef{gPruned}},
-	"boc.readNBytesUIntFromArray P2 index arr[φi] @ (*boc.immutableCell).Depth call(2,*ic.bitsBuf[(_+_):])":           {"2 bytes remain after 2+32*offset+2*index by the pruned-branch length check", []guardRef{gPruned}},
-	"boc.newImmutableCell P2 index *&complit.hashes[((_-_)-1)]":                                                       {"taken only when hashIndex > offset, i.e. at least one hash was appended before", nil},
-	"boc.newImmutableCell P4 make []*github.com/tonkeeper/tongo/boc.immutableCell len=0 cap=boc.Cell.RefsSize()":      {"RefsSize counts the non-nil entries of a [4]*Cell array", nil},
+	"boc.readNBytesUIntFromArray P2 index arr[φi] @ (*boc.immutableCell).Depth call(2,*ic.bitsBuf[(_+_):])":             {"2 bytes remain after 2+32*offset+2*index by the pruned-branch length check", []guardRef{gPruned}},
+	"boc.newImmutableCell P2 index *&complit.hashes[((_-_)-1)]":                                                         {"taken only when hashIndex > offset, i.e. at least one hash was appended before", nil},
+	"boc.newImmutableCell P4 make []*github.com/tonkeeper/tongo/boc.immutableCell len=0 cap=boc.Cell.RefsSize()":        {"RefsSize counts the non-nil entries of a [4]*Cell array", nil},
 	// ---- cell parser
 	"boc.deserializeCellData P2 slice φcellData[0:((_>>1)+(_%2))]":                                                                                                                      {"guard len(cellData) >= dataBytesSize + referenceIndexSize*refNum with referenceIndexSize = header.sizeBytes in 1..4 and refNum = d1%8 >= 0", []guardRef{gCellLen, gSizeLo}},
 	"boc.deserializeCellData P2 slice φcellData[((_>>1)+(_%2)):]":                                                                                                                       {"same guard", []guardRef{gCellLen, gSizeLo}},
